@@ -142,7 +142,7 @@ def parse_printed(out, tag):
     by ToJson; this returns the list of decoded objects.
     """
     res = []
-    pat = re.compile(r'<<"%s",\s*"((?:[^"\\]|\\.)*)">>' % re.escape(tag))
+    pat = re.compile(r'<<\s*"%s",\s*"((?:[^"\\]|\\.)*)"\s*>>' % re.escape(tag))
     for m in pat.finditer(out):
         txt = m.group(1).encode("utf8").decode("unicode_escape")
         try:
@@ -153,14 +153,16 @@ def parse_printed(out, tag):
 
 
 def tla_value_scan(out, tag):
-    """Return the raw text of every printed tuple that starts with <<"tag", (bracket matched)."""
+    """Return the raw text of every printed tuple that starts with <<"tag", (bracket matched).
+    TLC pretty-prints long tuples over several lines as `<< "tag",\n   ...  >>`."""
     res = []
-    key = '<<"%s"' % tag
-    i = 0
+    pat = re.compile(r'<<\s*"%s"' % re.escape(tag))
+    pos = 0
     while True:
-        i = out.find(key, i)
-        if i < 0:
+        m = pat.search(out, pos)
+        if not m:
             break
+        i = m.start()
         depth = 0
         j = i
         instr = False
@@ -184,7 +186,7 @@ def tla_value_scan(out, tag):
                         break
             j += 1
         res.append(out[i:j + 1])
-        i = j + 1
+        pos = j + 1
     return res
 
 
@@ -219,7 +221,7 @@ def validate_trace(module, events, cfg=None, env=None, timeout=3600, keep=None, 
     done = tla_value_scan(out, "TRACE-DONE")
     rejects = []
     for txt in tla_value_scan(out, "REJECT"):
-        m = re.match(r'<<"REJECT",\s*(-?\d+|"[^"]*"),\s*(\d+),\s*"([^"]*)"(?:,\s*(.*))?>>$', txt, re.S)
+        m = re.match(r'<<\s*"REJECT",\s*(-?\d+|"[^"]*"),\s*(\d+),\s*"([^"]*)"(?:,\s*(.*?))?\s*>>$', txt, re.S)
         if m:
             tid = m.group(1)
             tid = int(tid) if not tid.startswith('"') else tid.strip('"')
@@ -235,16 +237,22 @@ def validate_trace(module, events, cfg=None, env=None, timeout=3600, keep=None, 
             seen.add(k)
             uniq.append(x)
     consumed = None
+    nbad = -1
     if done:
-        m = re.match(r'<<"TRACE-DONE",\s*(\d+),\s*(\d+)>>', done[-1])
+        m = re.match(r'<<\s*"TRACE-DONE",\s*(\d+),\s*(\d+)\s*>>', done[-1], re.S)
         if m:
             consumed = int(m.group(1))
+            nbad = int(m.group(2))
     if consumed is None or not r["ok"] and not r["violated"] and consumed != len(events):
         raise Machinery("trace validation with %s did not complete: %s\n%s"
                         % (module, r["error"], out[-4000:]))
     if consumed != len(events):
         raise Machinery("trace module %s consumed %s of %d lines\n%s"
                         % (module, consumed, len(events), out[-3000:]))
+    # every rejection TLC counted must have been parsed (a verdict may never be lost in transit)
+    if len(uniq) != nbad or any(x[1] < 0 for x in uniq):
+        raise Machinery("trace module %s counted %d rejected events but %d were parsed\n%s"
+                        % (module, nbad, len(uniq), out[-3000:]))
     return {"consumed": consumed, "n": len(events), "rejects": uniq, "out": out,
             "wall_s": r["wall_s"], "states": r["states"], "distinct": r["distinct"]}
 
